@@ -30,12 +30,19 @@ REQUIRED = ['C15.Inv_init', 'C15.Inv_step', 'C15.Inv_run', 'C15.metric_value', '
             'C15.parse_print', 'C15.cmp_sem', 'C15.matching_is_conjunction', 'C15.subset_is_rank',
             'C15.pick_selects', 'C15.chain_maximal_runs', 'C15.cache_irrelevant', 'C15.sliceCache_eq_lookup',
             'C15.container_vectors_are_index_map_vectors', 'C15.metric_is_cycle_statistic',
-            'C15.container_cv_is_cycle_vector', 'C15.init_is_good_is_quality_flag']
+            'C15.container_cv_is_cycle_vector', 'C15.init_is_good_is_quality_flag',
+            'C15.cache_relevant_short_vals', 'C15.cache_relevant_short_vals_augmented', 'C15.cache_irrelevant_run',
+            'C15.chain_position_spec', 'C15.position_in_chain_spec', 'C15.metric_frame', 'C15.metric_persists',
+            'C15.metric_value_persists', 'C15.add_metric_guard', 'C15.chain_metric_value']
 TRUSTED = ["Python's float(text) is an oracle: the harness sends float(cond[i:]) for every suffix of every condition, the model chooses the suffix",
            'pandas builds the table (DataFrame.from_dict / drop / reset_index): only row count, column names and cell values are compared',
            'the float constants 1.5*pi (trough threshold), 2*pi and 2*pi - phase_edge are computed by the harness with the documented expressions and handed to the model exactly',
            'reducing functions are the named set {mean, max, sum, len, first, last}; the theorems hold for every function']
-ASSUMPTIONS = ['per-sample value vectors have one value per sample; values are small integers so every float sum is exact',
+ASSUMPTIONS = ['per-sample value vectors have one value per sample (hypothesis Op.ValsOK of C15.cache_irrelevant, hv of C15.metric_value*); '
+               'compute_cycle_metric checks no length: on a shorter vector use_cache=False raises IndexError while use_cache=True computes on '
+               'clipped slices (theorem C15.cache_relevant_short_vals; modelled faithfully and compared on cases tagged outside-domain:*, '
+               'which the instance check does not judge: a vector of another length is not a per-sample vector of the record); '
+               'values are small integers so every float sum is exact',
                'condition literals are finite numbers (no inf / nan literal)',
                'add_cycle_metric returning (not raising) its ValueError on a length mismatch is canonicalised to a rejection: the store is unchanged either way']
 THR = 1.5 * np.pi
@@ -44,7 +51,8 @@ RULE = ('sequences: exhaustive over a 10-operation alphabet up to length 3 (quic
         'sequences up to length 12 on synthetic phases (variable, noisy, occasionally reversing frequency; 1-400 samples; phases without any '
         'wrap included); operations {compute metric (cycle / augmented) with %s, add metric (right and wrong length, reserved names), '
         'compute timings, pick subset with 1-3 conditions over == != < <= > >= and negative / decimal / exponent literals, chain timings, '
-        'chain metric, export all / subset / conditions, get_matching_cycles}; every case runs with cache on and off. Non-trivial: '
+        'chain metric, export all / subset / conditions, get_matching_cycles}; every case runs with cache on and off; about 1 percent of the '
+        'compute-metric operations get a value vector of the wrong length (outside the domain: compared with the model, not judged). Non-trivial: '
         'at least two cycles and an operation sequence that selects a proper non-empty subset or stores a computed metric.' % FNAMES[:6])
 
 
@@ -441,6 +449,14 @@ def oracle_stat(case, lab, K, op):
     return out
 
 
+def outside_domain(case, op):
+    """'short' / 'long' when a compute-metric operation is handed a vector that does not have one value per
+    sample (outside the property's quantifier: not a per-sample vector of this record), else None."""
+    if op is not None and op['op'] == 'compute' and len(op['vals']) != len(case['phase']):
+        return 'short' if len(op['vals']) < len(case['phase']) else 'long'
+    return None
+
+
 CHAIN_TIMING = {'chain_start': ('first', 'idx'), 'chain_end': ('last', 'idx'),
                 'chain_len_samples': ('len', 'idx'), 'chain_len_cycles': ('nunique', 'lab')}
 
@@ -470,12 +486,14 @@ def check_trace(case, tr, tag):
             if len(v) != K:
                 fail('metric-length', i, 'metric %r has %d entries for %d cycles' % (n, len(v), K))
         # ---- a computed metric is f on each cycle's samples -----------------------------------
-        if op and op['op'] == 'compute' and st['st'] == 'ok':
+        if outside_domain(case, op) == 'short':
+            pass      # outside the domain: nothing is claimed (the correspondence still compares model and code)
+        elif op and op['op'] == 'compute' and st['st'] == 'ok':
             exp = oracle_stat(case, lab, K, op)
             if op['name'] not in md or not _leq(md[op['name']], exp):
                 fail('metric-value:' + op['mode'], i, 'metric %r = %s, expected %s(%s samples) = %s'
                      % (op['name'], md.get(op['name'], 'missing')[:10] if op['name'] in md else 'missing', op['f'], op['mode'], exp[:10]))
-        if op and op['op'] == 'compute' and st['st'] != 'ok':
+        if op and op['op'] == 'compute' and st['st'] != 'ok' and outside_domain(case, op) != 'short':
             fail('compute-metric-raises:' + st['st'], i, 'compute_cycle_metric(%r, mode=%s) raised' % (op['name'], op['mode']))
         if op and op['op'] == 'timings' and st['st'] == 'ok':
             n = len(lab)
@@ -653,6 +671,8 @@ class _Base(Stream):
                 for k, f in found.items():
                     fs.setdefault(k, f)
         d = trace_diff(out['on'], out['off'])
+        if d and d[1] > 0 and outside_domain(case, case['ops'][d[1] - 1]) == 'short':
+            d = None     # the two routes are known to differ on a short value vector (C15.cache_relevant_short_vals)
         if d:
             where = d[0].split(':')[0]
             opn = 'init' if d[1] == 0 else case['ops'][d[1] - 1]['op']
@@ -667,6 +687,8 @@ class _Base(Stream):
         t = ['ops=%d' % len(case['ops'])]
         for o in case['ops']:
             t.append('op=' + o['op'] + (':' + o['mode'] if o['op'] in ('compute', 'export') else ''))
+            if outside_domain(case, o):
+                t.append('outside-domain:value-vector-%s:%s' % (outside_domain(case, o), o['mode']))
         if not isinstance(out, ImplError) and 'trace' in out['on']:
             tr = out['on']['trace']
             K = tr[0]['K']
@@ -886,6 +908,19 @@ class Random(_Base):
                      {'op': 'chain_metric', 'name': 'cs', 'f': 'mean', 'vals': [-5, -4, -3, 3, 4, 5, 0, 1, 2, -3, -2, -1, 5, -5], 'int': 1},
                      {'op': 'chain_metric', 'name': 'cn', 'f': 'mean', 'vals': [-5, -4, -3, -3, 4, -5, 0, -1, 2, -3, -2, -1, -5, -5], 'int': 1},
                      {'op': 'chain_metric', 'name': 'cf', 'f': 'mean', 'vals': [-5, -4, -3, -3, 4, -5, 0, -1, 2, -3, -2, -1, -5, -5], 'int': 0}]},
+            # OUTSIDE THE DOMAIN (review B, C15 item 1): compute_cycle_metric checks no length.  7 values on 12 samples:
+            # cache on -> [3,12,6,0] / [nan,14,11,0], cache off -> IndexError.  15 values: both routes agree.  The model
+            # reproduces both routes (correspondence); the instance check claims nothing on the short vector.
+            {'phase': REG * 4, 'step': None, 'edge': None, 'probe': ['m>=6'],
+             'ops': [{'op': 'compute', 'name': 'm', 'f': 'sum', 'mode': 'cycle', 'vals': _idx(7)},
+                     {'op': 'compute', 'name': 'a', 'f': 'sum', 'mode': 'augmented', 'vals': _idx(7)},
+                     {'op': 'compute', 'name': 'l', 'f': 'len', 'mode': 'cycle', 'vals': _idx(11)},
+                     {'op': 'pick', 'conds': ['is_good==1']}, {'op': 'export', 'mode': 'all'}]},
+            {'phase': REG * 4, 'step': None, 'edge': None, 'probe': ['m>=6'],
+             'ops': [{'op': 'compute', 'name': 'm', 'f': 'sum', 'mode': 'cycle', 'vals': _idx(15)},
+                     {'op': 'compute', 'name': 'a', 'f': 'sum', 'mode': 'augmented', 'vals': _idx(15)},
+                     {'op': 'compute', 'name': 'e', 'f': 'len', 'mode': 'augmented', 'vals': []},
+                     {'op': 'compute', 'name': 'z', 'f': 'sum', 'mode': 'cycle', 'vals': []}]},
             # all six comparators, negative / decimal / exponent literals, NaN entries
             {'phase': ph, 'step': None, 'edge': None, 'probe': ['duration>=-1.5e0', 'a!=3.5', 'm<1e1'],
              'ops': [{'op': 'timings'}, {'op': 'compute', 'name': 'a', 'f': 'mean', 'mode': 'augmented', 'vals': _idx(n)},
@@ -947,6 +982,10 @@ class Random(_Base):
                 f = rng.choice(FNAMES[:6])
                 mode = rng.choice(['cycle', 'cycle', 'augmented'])
                 v = vals()
+                if rng.random() < 0.04:
+                    # outside the domain: a vector without one value per sample (f total on an empty slice)
+                    f = rng.choice(['sum', 'len'])
+                    v = v[:rng.randint(0, n - 1)] if rng.random() < 0.7 else v + [1] * rng.randint(1, 5)
                 ops.append({'op': 'compute', 'name': nm, 'f': f, 'mode': mode, 'vals': v})
                 know(nm, sorted(set(v))[:6] + [len(v) // max(K, 1)])
             elif r < 0.32:
